@@ -19,6 +19,9 @@ def run_map(pid, kind, tier, seed, caps_mc, caps_sim, assumptions):
     for pref in ("TRUE", "FALSE"):
         cases = gen_cases(run, "MapSpecGen.tla", dict(base, SimDepth="0", PreferOk=pref), pid + "-Fan" + pref, workers=8)
         replay(run, "maps-replay", cases, "%s-fan-%s" % (kind, pref))
+        if kind == "hm" and pref == "TRUE":
+            # the same cases on a map whose values have no drop glue (the map decides per type whether it drops keys / values)
+            replay(run, "maps-replay", [dict(c, kind="hmp") for c in cases], "hm-plain-values-fan")
         # long behaviours: without armed-allocator calls the specification is deterministic and never diverges
         cases = gen_cases(run, "MapSpecGen.tla", dict(base, Keys=keys12, MaxV="1000", Caps=caps_sim, SimDepth="60", PreferOk=pref,
                                                        GenFail="TRUE" if (pref == "FALSE" and kind == "hm") else "FALSE"),
@@ -47,7 +50,7 @@ def run_map(pid, kind, tier, seed, caps_mc, caps_sim, assumptions):
     ncases = 40 if not thorough else 150
     for k in range(nfiles):
         f = os.path.join(d, "%s%d.ndjson" % (kind, k))
-        drive_trace(["maps-drive", "--kind", kind, "--seed", seed * 1000 + k, "--cases", ncases, "--len", [60, 150, 400][k % 3],
+        drive_trace(["maps-drive", "--kind", ("hmp" if (kind == "hm" and k % 3 == 1) else kind), "--seed", seed * 1000 + k, "--cases", ncases, "--len", [60, 150, 400][k % 3],
                      "--maxcap", [4, 9, 20, 40][k % 4], "--nkeys", [5, 8, 12][k % 3], "--fail", 1 if (k % 2 == 0 and kind == "hm") else 0], f, ncases)
         files.append(f)
     validate_traces(run, "MapSpecTrace.tla", dict(Keys=keys12, MaxV="1000000", Kind=K, Caps="{0}", GenFail="TRUE"), ["Inv"], files,
